@@ -5,4 +5,22 @@
 #include <libast_internal.h>
 #include "mc.h"
 #define FAIL(site, kind, shape, ...) mc_fail(site, kind, shape, __VA_ARGS__)
+
+/* History for the string helpers of strings.c (C12, C13, C17): once per process, before the first case, the OTHER helpers of the same
+ * source file are used with arguments of their own (explicit delimiter sets, quoted words, version words, blanks), so that anything the
+ * file keeps between calls - tables, scratch buffers, counters - has been written by a sibling before the function under test runs. */
+static inline void mc_strings_prelude(void)
+{
+    static int done;
+    if (done) return;
+    done = 1;
+    { char *s = strdup("a,b;c d"), *d = strdup(",;"); char **l = (char **) spiftool_split((spif_charptr_t) d, (spif_charptr_t) s);
+      if (l) { for (int i = 0; l[i]; i++) free(l[i]); free(l); } free(s); free(d); }
+    { char *s = strdup("x \"y z\" 'w'"); char *w = (char *) spiftool_get_word(2, (spif_charptr_t) s); free(w); (void) spiftool_get_pword(2, (spif_charptr_t) s); (void) spiftool_num_words((spif_charptr_t) s); free(s); }
+    { char *a = strdup("1.2beta3"), *b = strdup("1.2rc1"); (void) spiftool_version_compare((spif_charptr_t) a, (spif_charptr_t) b); free(a); free(b); }
+    { char *s = strdup("  p  q\t"); s = (char *) spiftool_condense_whitespace((spif_charptr_t) s); (void) spiftool_chomp((spif_charptr_t) s); free(s); }
+    { char d[8]; char *s = strdup("AbC"); spiftool_safe_strncpy((spif_charptr_t) d, (spif_charptr_t) s, sizeof d); (void) spiftool_downcase_str((spif_charptr_t) s); (void) spiftool_upcase_str((spif_charptr_t) s);
+      char *t = (char *) spiftool_substr((spif_charptr_t) s, 1, 1); free(t); free(s); }
+    { spif_tok_t t = spif_tok_new_from_ptr((spif_charptr_t) "m:n o"); spif_tok_set_sep(t, spif_str_new_from_ptr((spif_charptr_t) ":")); spif_tok_eval(t); spif_tok_del(t); }
+}
 #endif
